@@ -310,7 +310,9 @@ class Cluster:
         """Mark the submission as being complete."""
         return self._do_action_under_lock(self._mark_complete)
 
-    def prepare_for_resubmission(self, jobs_to_resubmit, updated_blocking_jobs_by_name):
+    def prepare_for_resubmission(
+        self, jobs_to_resubmit, updated_blocking_jobs_by_name, reset_results=None
+    ):
         """Reset the state of the cluster for resubmission of jobs.
 
         Parameters
@@ -319,10 +321,26 @@ class Cluster:
             job names that will be resubmitted
         updated_blocking_jobs_by_name : dict
             contains the blocking jobs for each job to be resubmitted
+        reset_results : callable | None
+            If set, called while the lock is held and before the status is rewritten. It
+            must remove the results of the jobs that will be resubmitted.
 
         """
-        # Locking is not required for this function.
+        # Hold the lock so that a reader (such as show-status) never sees the status files
+        # while they are being rewritten, or jobs that are done but have no result.
+        return self._do_action_under_lock(
+            self._prepare_for_resubmission,
+            jobs_to_resubmit,
+            updated_blocking_jobs_by_name,
+            reset_results,
+        )
+
+    def _prepare_for_resubmission(
+        self, jobs_to_resubmit, updated_blocking_jobs_by_name, reset_results
+    ):
         assert self._config.is_complete
+        if reset_results is not None:
+            reset_results()
         self._config.is_complete = False
         # Resubmitting is an explicit request to run jobs again.
         self._config.is_canceled = False
